@@ -11,8 +11,19 @@
 
 #ifdef ZAPPING_VBI_ZVBI_VERIF
 #  define ZVBI_LOOP_CONTRACT(...) __VA_ARGS__
+/* Ghost statement: specification state kept in step with the code. */
+#  define ZVBI_GHOST(...) __VA_ARGS__
 #else
 #  define ZVBI_LOOP_CONTRACT(...)
+#  define ZVBI_GHOST(...)
+#endif
+
+/* Loop contracts relating a loop to a ghost specification are written in
+   the proof harness, which defines these names before including the
+   source file; otherwise they are empty. */
+#ifndef ZVBI_VERIF_PFC_DECODE_LOOP
+#  define ZVBI_VERIF_PFC_DECODE_LOOP(dx, buffer, col)
+#  define ZVBI_VERIF_PFC_DECODE_SYNC(dx, buffer, col)
 #endif
 
 #endif /* __ZVBI_VERIF_ANNOT_H__ */
